@@ -11,8 +11,10 @@ from construct.core import RangeError
 from construct.core import Slicing
 from construct.core import Subconstruct
 from construct.core import Sequence
+from construct.core import SizeofError
 from construct.lib.containers import Container
 import enum
+from io import SEEK_SET
 from typing import Any
 from typing import Callable
 from typing import cast
@@ -361,9 +363,17 @@ class SafeListConstruct(Array):
             predicate = lambda obj: True
         for i in range(count):
             context._index = i
+            entry_address = stream.tell()
             try:
                 entry = self.subcon._parsereport(stream, context, path)  # type: ignore
             except (UnicodeDecodeError, ConstructError, KeyError, IndexError) as e:
+                # a failed element still occupies its slot: stay aligned
+                try:
+                    entry_size = self.subcon._sizeof(context, path)  # type: ignore
+                except SizeofError:
+                    entry_size = 0
+                if entry_size > 0:
+                    stream.seek(entry_address + entry_size, SEEK_SET)
                 continue
             if predicate(obj):
                 obj[i] = (entry)
